@@ -44,7 +44,8 @@ DEFS = {"P": P, "PC": PC, "PD": PD, "PR": PR, "PF": PF, "PFR": PFR, "Rec": REC,
         "Se": {"type": "string", "enum": ["a", "b"]},
         "Te": {"type": "integer", "enum": [1, 2]},
         "Al": {"$ref": "#/definitions/P"},
-        "Sm": {"type": "string", "maxLength": 2}}
+        "Sm": {"type": "string", "maxLength": 2},
+        "PNZ": {"type": "object", "properties": {"n": {"type": "integer", "format": "uint16", "minimum": 1}, "s": STR}, "required": ["n"]}}
 
 
 def ref(n):
@@ -144,7 +145,7 @@ KINDS = {
     "vec_nz32": ({"type": "array", "items": {"type": "integer", "format": "uint32", "minimum": 1}}, [[1]], [[1, 0]], False),
     "map_nz": ({"type": "object", "additionalProperties": {"type": "integer", "minimum": 1}}, [{"k": 2}, {}], [{"k": 0}], False),
     "tuple_nz": ({"type": "array", "items": [{"type": "integer", "minimum": 1}, STR], "minItems": 2, "maxItems": 2}, [[3, "s"]], [[0, "s"]], False),
-    "struct_nz": ({"type": "object", "properties": {"n": {"type": "integer", "format": "uint16", "minimum": 1}, "s": STR}, "required": ["n"]}, [{"n": 1}], [{"n": 0}, {"n": 0, "s": "x"}], False),
+    "struct_nz": (ref("PNZ"), [{"n": 1}], [{"n": 0}, {"n": 0, "s": "x"}], False),
     "enum_unt": (ref("Unt"), ["s", 5, [1]], [True, {}], False),
     "alias": (ref("Al"), [{"x": 2}], [{"x": "s"}], False),
     "boxed": (ref("Rec"), [{}, {"r": {}}], [{"r": 5}], False),
@@ -157,7 +158,7 @@ FLOAT_SPELLED = {"i64": [5.0], "u8": [7.0], "opt_u64": [5.0], "vec": [[80.0, 443
 FLOAT_SPELLED = {k: v for k, v in FLOAT_SPELLED.items() if v}
 QUICK_KINDS = ["bool", "u8", "i64", "nz32", "f64", "string", "str_max2", "str_enum", "opt_scalar", "opt_struct", "vec", "set", "map_int", "map_any", "map_key", "map_enum_key", "map_patprops", "map_key_len",
                "tuple1", "tuple2", "struct", "struct_closed", "struct_renamed", "alias", "struct_req_nullable", "struct_nested_defaults", "struct_inline_defaults", "enum_inline_defaults", "struct_flat", "struct_flat_renamed", "struct_flat_renamed_inline", "enum_ext", "enum_int", "opt_u64", "vec_i8", "map_u8", "vec_u64", "map_u64", "tuple_u64", "struct_u64", "enum_adj", "enum_adj_closed", "enum_int_closed", "enum_ext_closed", "enum_adj3", "allof_struct", "tuple_unit", "struct_unit_member", "enum_unt", "enum_ext_tuple", "enum_adj_tuple", "enum_unt_struct", "deny_list", "str_pattern", "str_mb", "str_min3_mb", "str_minmax",
-               "typed_enum", "boxed", "unit", "uuid"]
+               "typed_enum", "boxed", "unit", "uuid", "nz64", "vec_nz", "vec_nz32", "map_nz", "tuple_nz", "struct_nz"]
 
 
 def with_default(schema, d):
